@@ -500,6 +500,7 @@ var sharedOptions = &ed25519.Options{}
 func prepare(op *Op) *Prepared {
 	p := &Prepared{Op: op}
 	g := &p.G
+	g.tight = opTight(op)
 	o := op.Opt
 	p.opts = &ed25519.Options{Hash: o.hash(), Context: string(o.ctxBytes(op.Seed)), ZIP215Verify: o.Zip}
 	if reuseOptions && op.Seed&3 != 0 {
@@ -825,6 +826,41 @@ func budgetFor(op *Op) int64 {
 	return 1000000 + 500000*int64(len(op.Entries))
 }
 
+// A caller's reader need not be a pointer: a struct value with a value
+// receiver, a function type and an interface holding either are equally
+// legal io.Readers (anything that inspects the dynamic type of its reader
+// meets them). Which one an op uses is a pure function of its seed.
+type valReader struct{ d *Device }
+
+func (v valReader) Read(p []byte) (int, error) { return v.d.Read(p) }
+
+type funcReader func([]byte) (int, error)
+
+func (f funcReader) Read(p []byte) (int, error) { return f(p) }
+
+type arrReader [1]*Device
+
+func (a arrReader) Read(p []byte) (int, error) { return a[0].Read(p) }
+
+func readerKind(op *Op) int { return int(mix64(op.Seed^0x77a9c3) % 6) }
+
+func wrapReader(dev *Device, op *Op) io.Reader {
+	switch readerKind(op) {
+	case 3:
+		return valReader{dev}
+	case 4:
+		return funcReader(dev.Read)
+	case 5:
+		return arrReader{dev}
+	}
+	return dev
+}
+
+// opTight: one op in three hands the library slices without any spare
+// capacity (cap == len, also for empty and short ones): reslicing beyond the
+// length, legal while there is capacity, panics there.
+func opTight(op *Op) bool { return mix64(op.Seed^0x7167a1)%3 == 0 }
+
 // execOp performs the call described by p.Op on the prepared inputs.
 func execOp(p *Prepared) (out *Outcome) {
 	op := p.Op
@@ -838,7 +874,7 @@ func execOp(p *Prepared) (out *Outcome) {
 			setCurDev(dev)
 			defer setCurDev(nil)
 		} else {
-			rd = dev
+			rd = wrapReader(dev, op)
 		}
 	}
 	takeFallbacks()
